@@ -262,3 +262,97 @@ func (t *Tree) TileData(h, l int, n int64, w int) []byte {
 	}
 	return out
 }
+
+// Uniform is a log whose records are all identical, so that subtree hashes depend only on
+// the subtree size. It makes logs of up to 2^62 records tractable for the reference.
+type Uniform struct {
+	leaf Hash
+	mu   sync.Mutex
+	memo map[int64]Hash
+}
+
+func NewUniform(record []byte) *Uniform {
+	return &Uniform{leaf: LeafHash(record), memo: map[int64]Hash{}}
+}
+
+// MTHSize is the Merkle tree hash of any n consecutive records (n >= 1).
+func (u *Uniform) MTHSize(n int64) Hash {
+	u.mu.Lock()
+	defer u.mu.Unlock()
+	return u.mth(n)
+}
+
+func (u *Uniform) mth(n int64) Hash {
+	if n < 1 {
+		panic("merkleref: Uniform.MTHSize of a non-positive size")
+	}
+	if n == 1 {
+		return u.leaf
+	}
+	if h, ok := u.memo[n]; ok {
+		return h
+	}
+	k := split(n)
+	h := nodeHash(u.mth(k), u.mth(n-k))
+	u.memo[n] = h
+	return h
+}
+
+// Path is PATH(m, D[0:n]) for the uniform log.
+func (u *Uniform) Path(m, n int64) []Hash {
+	if n == 1 {
+		return nil
+	}
+	k := split(n)
+	if m < k {
+		return append(u.Path(m, k), u.MTHSize(n-k))
+	}
+	return append(u.Path(m-k, n-k), u.MTHSize(k))
+}
+
+// Proof is PROOF(m, D[0:n]) for the uniform log.
+func (u *Uniform) Proof(m, n int64) []Hash { return u.subproof(m, n, true) }
+
+func (u *Uniform) subproof(m, n int64, b bool) []Hash {
+	if m == n {
+		if b {
+			return nil
+		}
+		return []Hash{u.MTHSize(n)}
+	}
+	k := split(n)
+	if m <= k {
+		return append(u.subproof(m, k, b), u.MTHSize(n-k))
+	}
+	return append(u.subproof(m-k, n-k, false), u.MTHSize(k))
+}
+
+// LevelOfStoredIndex returns the tree level of the hash stored at dense position p
+// (layout: after leaf i, every subtree it completes, bottom-up; 2i-popcount(i) hashes precede leaf i).
+func LevelOfStoredIndex(p int64) int {
+	before := func(i int64) int64 {
+		c := int64(0)
+		for x := uint64(i); x != 0; x &= x - 1 {
+			c++
+		}
+		return 2*i - c
+	}
+	if p < 0 || p >= 1<<62 {
+		panic("merkleref: stored index out of the supported range")
+	}
+	lo, hi := int64(0), p // largest i with before(i) <= p
+	for lo < hi {
+		mid := lo + (hi-lo+1)/2
+		if before(mid) <= p {
+			lo = mid
+		} else {
+			hi = mid - 1
+		}
+	}
+	return int(p - before(lo))
+}
+
+// StoredAt is the stored hash at dense position p of the uniform log.
+func (u *Uniform) StoredAt(p int64) Hash {
+	return u.MTHSize(int64(1) << uint(LevelOfStoredIndex(p)))
+}
